@@ -392,6 +392,8 @@ def check_frame(modinfo, rel, shapes=(), roots=None, allow_self_rebind=True, sel
         r = "G" if s.root.startswith("G:") else s.root
         if roots is not None and r not in roots:
             continue
+        if r == "G" and s.shape.endswith("[*]") and pure_memo_store(modinfo, s):
+            continue          # a table of F(key) under key: no cross-call state (see pure_memo_store)
         if r == "P":
             m_ = _re.match(r"[A-Za-z_]\w*", s.text)
             shallow = _re.fullmatch(r"(call:)?P(\.\w+){1,2}", s.shape)    # the object's own attributes / its own containers;
@@ -400,6 +402,25 @@ def check_frame(modinfo, rel, shapes=(), roots=None, allow_self_rebind=True, sel
                 continue      # written through a parameter that only ever receives objects made by the caller: not an input
         bad.append(Hit("%s::%s line %d: `%s` writes through the path %s" % (rel, qual, s.lineno, s.text, s.shape), r))
     return bad
+
+
+def pure_memo_store(modinfo, site):
+    """the store is `TABLE[key] = F(key)` (possibly chained: `x = TABLE[key] = F(key)`): a table of a function of exactly its
+    key -- F a plain name (a class or a function), `key` its only argument.  Whatever is read back from such a table is what
+    a fresh computation from the same key would give (F deterministic: assumed, D-PURE-CTOR), so it is not state that a call
+    can observe of an earlier one."""
+    for n in ast.walk(modinfo.tree):
+        if not (isinstance(n, ast.Assign) and getattr(n, "lineno", None) == site.lineno):
+            continue
+        subs = [t for t in n.targets if isinstance(t, ast.Subscript) and ast.unparse(t) == site.text]
+        if not subs or not isinstance(n.value, ast.Call):
+            continue
+        c = n.value
+        if c.keywords or len(c.args) != 1 or not isinstance(c.func, ast.Name):
+            continue
+        if all(ast.unparse(t.slice) == ast.unparse(c.args[0]) for t in subs) and isinstance(c.args[0], (ast.Name, ast.Constant)):
+            return True
+    return False
 
 
 class Hit(str):
